@@ -485,6 +485,18 @@ def _split_loop(fdef):
     return body[:3]
 
 
+def _crypto_test(fname):
+    """the test of the `if` statement whose body calls crypto.<fname>: the decision to seal / to open under the key"""
+    def extract(fdef):
+        for node in ast.walk(fdef):
+            if isinstance(node, ast.If):
+                for sub in [x for st in node.body for x in ast.walk(st)]:
+                    if isinstance(sub, ast.Call) and isinstance(sub.func, ast.Attribute) and sub.func.attr == fname:
+                        return [ast.Return(value=node.test)]
+        raise Unsupported("no `if` whose body calls crypto.%s" % fname)
+    return extract
+
+
 def kernels(C, Z=None):
     """the fixed list of kernels; C, Z = the live `mpgameserver.connection` / `mpgameserver.serializable` modules of the tree under test"""
     S, B, P = C.SeqNum, C.BitField, C.Packet
@@ -528,6 +540,10 @@ def kernels(C, Z=None):
     ks.append(Fn("Packet_total_size", f(C.Packet, "total_size"), [("key", "Bool")], ret="Int",
                  types={"self_msg": "Len"},
                  doc="Packet.total_size(key): `key` = whether a key is given; the packet type through its integer value"))
+    ks.append(Fn("Packet_to_bytes_seals", f(C.Packet, "to_bytes"), [("key", "Bool")], ret="Bool", extract=_crypto_test("encrypt_gcm"),
+                 doc="Packet.to_bytes: the condition under which the packet is sealed with AES-GCM (otherwise: header + plaintext + CRC)"))
+    ks.append(Fn("Packet_from_bytes_opens", f(C.Packet, "from_bytes"), [("key", "Bool")], ret="Bool", extract=_crypto_test("decrypt_gcm"),
+                 doc="Packet.from_bytes: the condition under which a datagram must open under the key (otherwise: CRC check)"))
     ks.append(Fn("PacketHeader_to_bytes", f(C.PacketHeader, "to_bytes"), [], ret="List UInt8",
                  types={"self_isServer": "Bool"},
                  doc="PacketHeader.to_bytes: the 20 header bytes (the first 12 are the AES-GCM nonce), or struct.error"))
@@ -546,6 +562,8 @@ READS = {   # read-only attributes that become extra parameters (they are object
     "stale_datagram": [("self_bitfield_pkt_current_seqnum", "Int"), ("self_bitfield_pkt_nbits", "Nat"), ("pkt_hdr_seq", "Int")],
     "serialize_int": [("out", "List UInt8")],
     "Packet_total_size": [("self_hdr_pkt_type", "Int"), ("self_msg", "Len")],
+    "Packet_to_bytes_seals": [("self_hdr_pkt_type", "Int")],
+    "Packet_from_bytes_opens": [("hdr_pkt_type", "Int")],
     "PacketHeader_to_bytes": [("self_isServer", "Bool"), ("self_ctime", "Int"), ("self_seq", "Int"), ("self_ack", "Int"),
                               ("self_pkt_type_value", "Int"), ("self_length", "Int"), ("self_count", "Int"), ("self_ack_bits", "Int")],
     "FragmentSender_split": [("Packet_MAX_PAYLOAD_SIZE", "Int"), ("Packet_MAX_FRAGMENT_SIZE", "Int")],
@@ -623,7 +641,7 @@ GROUPS = {      # group -> (kernels, imports): one Lean file and one equivalence
     "Size": (["Packet_overhead", "Packet_setMTU"], ["Seq"]),
     "Serial": (["serialize_int"], ["Seq"]),
     "Frag": (["FragmentSender_split"], ["Seq"]),
-    "Header": (["PacketHeader_to_bytes", "Packet_total_size"], ["Seq"]),
+    "Header": (["PacketHeader_to_bytes", "Packet_total_size", "Packet_to_bytes_seals", "Packet_from_bytes_opens"], ["Seq"]),
 }
 
 
